@@ -44,7 +44,7 @@ def budget(tier: str) -> dict:
 def _case(draw):
     d = gen.D(draw)
     src = gen.any_doc_d(d)
-    cfg = d.pick(FIXED_CFGS) if d.chance(0.6) else gen.config_d(d, allow_linkify=False)
+    cfg = gen.maybe_late(d, d.pick(FIXED_CFGS)) if d.chance(0.6) else gen.config_d(d, allow_linkify=False)
     return {"src": src, "cfg": cfg}
 
 
